@@ -31,6 +31,8 @@ impl<'a> TokenStream for Lexer<'a> {
 
     fn skip_lines_until_directive(&mut self) {
         loop {
+            #[cfg(feature = "verif")]
+            crate::verif::step();
             self.s.eat_until(is_newline);
             loop {
                 self.s.eat_while(char::is_whitespace);
